@@ -57,6 +57,7 @@ class Impl:
 
         self.fn = get_angle_spec_from_float
         self.default_tol = inspect.signature(get_angle_spec_from_float).parameters["tol"].default
+        self.last_pending = None
         self._b = (SubroutineMessage, deserialize_host_msg, deserialize, BaseNetQASMConnection, DebugConnection,
                    Qubit, SharedMemoryManager)
 
@@ -103,8 +104,10 @@ class Impl:
             sys.settrace(None)
         return got, st, box.get("obs")
 
-    def emit(self, rots):
-        """rots: [dict(axis 'X'|'Y'|'Z', n, d, angle)] where n, d, angle may be absent (= not passed).
+    def emit(self, rots, separate=True):
+        """separate=False: no Hadamard between the calls; returns the whole emitted run
+        [(mnemonic, n, d)] (or None if the SDK raised, e.g. at flush()).
+        rots: [dict(axis 'X'|'Y'|'Z', n, d, angle)] where n, d, angle may be absent (= not passed).
         Builds a real connection, applies the rotations to one qubit with a Hadamard after
         each one as a separator, flushes, decodes the committed bytes again and returns one
         segment [(mnemonic, n, d)] per rotation call, or None if the SDK raised."""
@@ -120,7 +123,14 @@ class Impl:
                 for r in rots:
                     kw = {k: r[k] for k in ("n", "d", "angle") if k in r and not (k == "angle" and r[k] is None)}
                     getattr(q, "rot_" + r["axis"])(**kw)
-                    q.H()
+                    if separate:
+                        q.H()
+                try:   # best effort, for the replay only: what is about to be flushed
+                    self.last_pending = [[c.instruction.name.lower(), c.operands[1], c.operands[2]]
+                                         for c in conn.builder._pending_commands
+                                         if hasattr(c, "instruction") and c.instruction.name.startswith("ROT_")]
+                except Exception:  # noqa: BLE001
+                    self.last_pending = None
                 conn.flush()
             segs, cur = [], []
             for raw in conn.storage:
@@ -132,6 +142,8 @@ class Impl:
                         elif i.mnemonic == "h":
                             segs.append(cur)
                             cur = []
+            if not separate:
+                return cur
             if cur or len(segs) != len(rots):
                 raise RuntimeError("separator instructions do not match the calls")
             return segs
@@ -305,6 +317,104 @@ def gen_builder_cases(rng, n):
                 rots.append(dict(axis=rng.choice("XYZ"), n=rng.randint(0, 255), d=rng.choice([0, 1, 2, 3, 8, 31, 32, 255, rng.randint(0, 255)])))
         out.append(rots)
     return out
+
+
+def _away_from_zero(angle, tol):
+    return float(circle_dist(F(angle))) > 20 * tol
+
+
+def gen_builder_runs(rng, n, tol=1e-4):
+    """[[dict(axis, n?, d?, angle?)]]: 2..4 CONSECUTIVE rotation calls on one qubit, no separator.
+    Every angle is farther than 20 tol from a multiple of 2 pi and every n/d-only call is encodable, so
+    each call emits at least one instruction and the emitted stream splits into the same maximal
+    same-axis groups as the calls.  Families: (a) shared exponent: the last step of one call and the
+    first step of the next have the same d (m*pi/2^k followed by (n2+f)*pi/2^k, also via n/d-only
+    calls), same and different axes; (b) random angles / n,d."""
+    out = []
+
+    def shared(k):
+        m = rng.randrange(1, 256, 2)
+        n2 = rng.randrange(129, 256, 2)
+        return m * math.pi / 2 ** k, (n2 + rng.uniform(0.05, 0.95)) * math.pi / 2 ** k, m, n2
+
+    out.append([dict(axis="Z", angle=201 * math.pi / 256), dict(axis="Z", angle=2.47)])
+    for k in list(range(1, 16)) * 3:
+        a1, a2, m, n2 = shared(k)
+        ax = rng.choice("XYZ")
+        ax2 = ax if rng.random() < 0.75 else rng.choice("XYZ")
+        cand = [[dict(axis=ax, angle=a1), dict(axis=ax2, angle=a2)],
+                [dict(axis=ax, n=m, d=k), dict(axis=ax2, angle=a2)],
+                [dict(axis=ax, angle=a1), dict(axis=ax2, n=n2, d=k)],
+                [dict(axis=ax, n=m, d=k), dict(axis=ax2, n=n2, d=k)],
+                [dict(axis=ax, angle=rng.uniform(0.1, 6.0)), dict(axis=ax, angle=a1), dict(axis=ax2, angle=a2),
+                 dict(axis=rng.choice("XYZ"), angle=rng.uniform(0.1, 6.0))]]
+        for c in cand:
+            if all(r.get("angle") is None or _away_from_zero(r["angle"], tol) for r in c):
+                out.append(c)
+    while len(out) < n:
+        rots = []
+        ax = rng.choice("XYZ")
+        for _ in range(rng.randint(2, 4)):
+            if rng.random() < 0.3:
+                ax = rng.choice("XYZ")
+            if rng.random() < 0.75:
+                a = rng.uniform(-20, 20) if rng.random() < 0.7 else rng.randint(1, 511) * math.pi / 2 ** rng.randint(1, 9)
+                if not _away_from_zero(a, tol):
+                    continue
+                rots.append(dict(axis=ax, angle=a))
+            else:
+                rots.append(dict(axis=ax, n=rng.randint(0, 255), d=rng.randint(0, 12)))
+        if len(rots) >= 2:
+            out.append(rots)
+    return out
+
+
+def call_groups(rots):
+    """maximal runs of calls about the same axis: [(axis, [rot, ...])]"""
+    groups = []
+    for r in rots:
+        if groups and groups[-1][0] == r["axis"]:
+            groups[-1][1].append(r)
+        else:
+            groups.append((r["axis"], [r]))
+    return groups
+
+
+def instr_groups(run):
+    groups = []
+    for (m, n, d) in run:
+        if groups and groups[-1][0] == m:
+            groups[-1][1].append([n, d])
+        else:
+            groups.append((m, [[n, d]]))
+    return groups
+
+
+def run_oracle(rots, run, tol):
+    """The property on a whole emitted run (None = the SDK raised).  Rotations about one axis
+    commute, so per maximal same-axis group the emitted steps must add up (mod 2 pi) to the sum of
+    the requested angles (n/d-only calls count exactly) within (#angle calls) * (tol + 2^-49)."""
+    if run is None:
+        return dict(ok=False, why="the SDK raised (flush refuses an instruction or a call failed)")
+    bad = [[m, n, d] for (m, n, d) in run if not (0 <= n <= 255 and 0 <= d <= 255)]
+    if bad:
+        return dict(ok=False, why=f"unencodable instruction(s) {bad}")
+    cg, ig = call_groups(rots), instr_groups(run)
+    if [a for a, _ in cg] != [m[-1].upper() for m, _ in ig]:
+        return dict(ok=False, why=f"axes of the emitted groups {[m for m, _ in ig]} differ from the calls {[a for a, _ in cg]}")
+    for (ax, calls), (_, nds) in zip(cg, ig):
+        target, allow = F(0), F(0)
+        for r in calls:
+            if r.get("angle") is not None:
+                target += F(r["angle"])
+                allow += F(tol) + FE_ALLOW
+            else:
+                target += F(r.get("n", 0), 2 ** r.get("d", 0)) * PI
+        err = circle_dist(half_turns(nds) * PI - target)
+        if err > allow:
+            return dict(ok=False, why="axis %s: steps %s miss the sum of the requested angles by %.6g rad > %.6g" % (
+                ax, nds, float(err), float(allow)), err=float(err))
+    return dict(ok=True, why="")
 
 
 def rot_json(r):
